@@ -41,7 +41,10 @@ REGISTRY = dict(
           "were set (frozen otherwise, other keys untouched), the return accumulator is the discounted sum since the last episode end/reset, normalise/unnormalise (regenerated "
           "expressions, sqrt symbolic) are inverse inside the clip range and bounded by it, terminal observations get the same transform, pickle/sync keep every statistic. "
           "Known finding F17 norm-obs-enabled-after-construction-raises (VecNormalize(norm_obs=False) has no obs_rms; switching norm_obs on later raises AttributeError) is reproduced "
-          "from a fixed corpus input. Tie: fragment translator + correspondence."),
+          "from a fixed corpus input. Build round 5 (Model/VecNormKeyed.v): Dict observations with norm_obs_keys - every key of the keyed model is an instance of the single-array "
+          "model (simulation), keys outside norm_obs_keys pass through unchanged and never get statistics, keys are independent, the constructor accepts exactly the configurations whose "
+          "selected keys are Box keys of the Dict space (or a Box space without keys), pickle + set_venv keep every statistic and the key selection and zero the returns of the new n_envs. "
+          "Tie: fragment translator (groups runningmoments, vecnormkeyed) + correspondence."),
     note=("Trusted: Coq 8.16.1 kernel (vm_compute, no native_compute), translate/py2coq.py + specs/runningmoments.py, harness/c15.py, Python/numpy/gymnasium. "
           "The epsilon prior is part of the statement ('equal the moments' is read as 'equal the moments of the stream merged with the prior of weight 1e-4'). "
           "Not verified: float64/float32 rounding (statistics compared at rel/abs 1e-9, float32 outputs at 1e-5), np.sqrt (hint checked by squaring inside Coq), "
@@ -54,7 +57,7 @@ COV_TARGETS = {"stable_baselines3/common/vec_env/vec_normalize.py": None, "stabl
                "stable_baselines3/common/vec_env/__init__.py": ["sync_envs_normalization"]}
 
 HEADER = """From Coq Require Import List QArith ZArith Bool.
-From SB3V Require Import Lib.QUtil Model.RunningMoments Model.VecNorm.
+From SB3V Require Import Lib.QUtil Model.RunningMoments Model.VecNorm Model.VecNormKeyed.
 Import ListNotations.
 Local Open Scope Q_scope.
 """
@@ -806,10 +809,14 @@ def run_ctor(case):
     return {"ctor": out}
 
 
-RUN = {"rms": run_rms, "vecnorm": run_vecnorm, "ctor": run_ctor}
-EXPRS = {"rms": exprs_rms, "vecnorm": exprs_vecnorm, "ctor": lambda c, im: ["true"]}
+from harness import c15_keyed as KY  # noqa: E402  (build round 5: Dict observations with norm_obs_keys, constructor decision, set_venv)
+
+RUN = {"rms": run_rms, "vecnorm": run_vecnorm, "ctor": run_ctor, "keyed": KY.run_keyed, "sanity": KY.run_sanity}
+EXPRS = {"rms": exprs_rms, "vecnorm": exprs_vecnorm, "ctor": lambda c, im: ["true"], "keyed": KY.exprs_keyed, "sanity": KY.exprs_sanity}
 COMPARE = {"rms": compare_rms, "vecnorm": compare_vecnorm,
-           "ctor": lambda c, im, mv: [("oracle-documented-error-not-raised", k) for k, ok in im["ctor"].items() if not ok]}
+           "ctor": lambda c, im, mv: [("oracle-documented-error-not-raised", k) for k, ok in im["ctor"].items() if not ok],
+           "keyed": KY.compare_keyed, "sanity": KY.compare_sanity}
+GROUPS = ["runningmoments", "vecnormkeyed"]
 
 
 def nontrivial(case, impl):
@@ -817,6 +824,12 @@ def nontrivial(case, impl):
         return False
     if case["kind"] == "rms":
         return len(case["split_a"]) >= 2 and case["split_a"] != case["split_b"]
+    if case["kind"] == "sanity":
+        return case["norm_obs"] and (case["space"][0] == "dict" or case["norm_obs_keys"] is not None)
+    if case["kind"] == "keyed":
+        sel = set(impl["eff"] or [])
+        mixed = bool(sel) and len(sel) < len(case["layout"])
+        return mixed and case["norm_obs"] and any(any(e.get("dones", [])) for e in impl["events"]) and sum(1 for op in case["ops"] if op[0] == "step") >= 2
     evs = impl["events"]
     toggled = any(op[0] == "set" for op in case["ops"])
     dones = any(any(e.get("dones", [])) for e in evs)
@@ -868,7 +881,7 @@ def run_cases(chk, cases):
 
 
 def main():
-    chk = Check("C15", groups=["runningmoments"])
+    chk = Check("C15", groups=GROUPS)
     chk.build_props()
     from harness import c18_branchcov
 
@@ -881,6 +894,13 @@ def main():
     n_corpus = len(cases)
     for i in range(n_cases):
         cases.append(gen_case(chk.rng, i))
+    # build round 5 (after the existing stream, which is unchanged): keyed Dict histories and constructor decisions
+    n_keyed = int(os.environ.get("VERIF_NKEYED", 0)) or (max(1, n_cases // 5) if chk.tier == "quick" else n_cases // 4)
+    n_sanity = int(os.environ.get("VERIF_NSANITY", 0)) or (max(1, n_cases // 3) if chk.tier == "quick" else n_cases // 3)
+    for i in range(n_keyed):
+        cases.append(KY.gen_keyed(chk.rng, i))
+    for i in range(n_sanity):
+        cases.append(KY.gen_sanity(chk.rng, i))
     impls, results = run_cases(chk, cases)
     distinct = set()
     hist = {"rms": 0, "rms_with_combine": 0, "vecnorm": 0, "vecnorm_exact_1e-9": 0, "obs_kind": {}, "n_envs": {}, "norm_obs_keys": {}, "with_toggles": 0, "start_not_training": 0,
@@ -890,6 +910,32 @@ def main():
         hist[c["kind"]] = hist.get(c["kind"], 0) + 1
         if c["kind"] == "ctor":
             pass
+        elif c["kind"] == "keyed":
+            kh = hist.setdefault("keyed_detail", {"key_types": {}, "selected_types": {}, "unselected_types": {}, "keys_none": 0, "repeated_key": 0, "with_toggles": 0,
+                                                  "start_not_training": 0, "terminal_observations": 0, "n_envs": {}, "n_envs2_differs": 0, "selected_image": 0})
+            eff = set((im.get("eff") or []) if isinstance(im, dict) else [])
+            for nm, t, _w in c["layout"]:
+                kh["key_types"][t] = kh["key_types"].get(t, 0) + 1
+                which = "selected_types" if (nm in eff and c["norm_obs"]) else "unselected_types"
+                kh[which][t] = kh[which].get(t, 0) + 1
+                kh["selected_image"] += int(t == "img" and nm in eff and c["norm_obs"])
+            kh["keys_none"] += int(c["norm_obs_keys"] is None)
+            kh["repeated_key"] += int(c["norm_obs_keys"] is not None and len(set(c["norm_obs_keys"])) < len(c["norm_obs_keys"]))
+            kh["with_toggles"] += int(any(op[0] == "set" for op in c["ops"]))
+            kh["start_not_training"] += int(not c["training"])
+            kh["terminal_observations"] += sum(sum(1 for t in e.get("raw_term", []) if t is not None) for e in im.get("events", [])) if isinstance(im, dict) else 0
+            kh["n_envs"][str(len(c["scripts"]))] = kh["n_envs"].get(str(len(c["scripts"])), 0) + 1
+            kh["n_envs2_differs"] += int(c["n_envs2"] != len(c["scripts"]))
+        elif c["kind"] == "sanity":
+            sh = hist.setdefault("sanity_detail", {"accepted": 0, "raised": 0, "space": {}, "norm_obs_off": 0, "missing_key": 0, "non_box_key_selected": 0})
+            if isinstance(im, dict) and "accepted" in im:
+                sh["accepted" if im["accepted"] else "raised"] += 1
+            sh["space"][c["space"][0]] = sh["space"].get(c["space"][0], 0) + 1
+            sh["norm_obs_off"] += int(not c["norm_obs"])
+            sh["missing_key"] += int("missing" in (c["norm_obs_keys"] or []))
+            if c["space"][0] == "dict":
+                ty = {n: t for n, t, _ in c["space"][1]}
+                sh["non_box_key_selected"] += int(any(ty.get(k) not in KY.BOX_TYPES for k in (c["norm_obs_keys"] if c["norm_obs_keys"] is not None else ty) if k in ty))
         elif c["kind"] == "rms":
             hist["rms_with_combine"] += int(bool(c["others"]))
         else:
@@ -908,7 +954,9 @@ def main():
                 continue
             reported.add(sig)
             queue.append((sig, "; ".join(m for _, m in (oracle_bad or probs)[:2]),
-                          {"case": c, "problems": probs[:8], "traceback": im.get("traceback"), "correspondence": "harness/c15.py vs Model.VecNorm.vn_trace / Model.RunningMoments (rms_trace)"},
+                          {"case": c, "problems": probs[:8], "traceback": im.get("traceback"),
+                           "correspondence": ("harness/c15_keyed.py vs Model.VecNormKeyed.kvn_trace / ctor_accepts" if c["kind"] in ("keyed", "sanity")
+                                              else "harness/c15.py vs Model.VecNorm.vn_trace / Model.RunningMoments (rms_trace)")},
                           bool(oracle_bad)))
     # statement-level oracle failures (concrete failing inputs) are reported first; model-only disagreements go into the remaining slots
     emitted = 0
@@ -927,6 +975,12 @@ def main():
                             "(VecNormalize) >= 3 steps, an episode end, and a flag toggle or a clipped output. Observation statistics are compared at 1e-9 when the float32 batch "
                             "moments are exact (grid values, n_envs a power of two), else at 1e-5; return statistics always at 1e-9. distinct = distinct full case description")
     chk.notes["input_distribution"] = hist
+    chk.coverage["keyed_dict_histories"] = hist.get("keyed", 0)
+    chk.coverage["constructor_decisions"] = hist.get("sanity", 0)
+    chk.notes["round5"] = ("keyed: random Dict spaces of 1-5 keys (float Box, int32 Box, uint8 image Box, Discrete, MultiBinary; width 1-3), norm_obs_keys = random subset of the Box keys "
+                           "(None when all keys are Box; sometimes a repeated key), n_envs 1/2/4, 3-11 operations with flag toggles, exact grids -> Model.VecNormKeyed.kvn_trace after every "
+                           "operation at 1e-9 (unselected keys compared EXACTLY incl. dtype by the oracle), then save -> load onto a venv with another n_envs; "
+                           "sanity: (space, norm_obs_keys, norm_obs) triples -> accept / raise vs Model.VecNormKeyed.ctor_accepts and the oracle")
     chk.notes["corpus_cases"] = n_corpus
     chk.add_samples([{k: v for k, v in cases[i].items() if k not in ("scripts", "xs", "split_a", "split_b", "others")} for i in (n_corpus, n_corpus + 1, n_corpus + 2) if i < len(cases)])
     chk.assumptions += [
@@ -945,7 +999,7 @@ def main():
 def replay(path):
     d = json.load(open(path))
     case = d["replay"]["case"] if "replay" in d else d
-    chk = Check("C15", groups=["runningmoments"])
+    chk = Check("C15", groups=GROUPS)
     impls, results = run_cases(chk, [case])
     print(json.dumps({"problems": results[0]}, indent=1))
     return 1 if results[0] else 0
